@@ -8,6 +8,8 @@
 #include <functional>
 #include <new>
 
+#include <valgrind/valgrind.h>
+
 #include "cctz/time_zone.h"
 #include "seams.h"
 #include "simsched.h"
@@ -500,10 +502,34 @@ Outcome exec_c12(const C12Case& c, bool keep_log, Stats* stats) {
   Attempt att[3];
   int64_t peak_request = 0;
 
+  // The data length the header(s) declare (what the loader will ask the allocator for), by our own arithmetic.
+  int64_t declared_alloc = 0;
+  {
+    auto datalen = [&](size_t h, int64_t tl) -> int64_t {
+      if (bytes.size() < h + 44) return -1;
+      int64_t cnt[6];
+      for (int i = 0; i < 6; ++i) { cnt[i] = get32(bytes, h + 20 + 4 * static_cast<size_t>(i)); if (cnt[i] < 0) return -1; }
+      return cnt[3] * (tl + 1) + cnt[4] * 6 + cnt[5] + cnt[2] * (tl + 4) + cnt[1] + cnt[0];
+    };
+    int64_t l1 = datalen(0, 4);
+    if (l1 >= 0 && bytes[4] == '\0') declared_alloc = l1;                       // version 1: the 32-bit block is what gets decoded
+    else if (l1 >= 0 && static_cast<uint64_t>(l1) < bytes.size()) {              // version 2+: the 32-bit block is skipped, the 64-bit one allocated
+      int64_t l2 = datalen(44 + static_cast<size_t>(l1), 8);
+      if (l2 > 0) declared_alloc = l2;
+    }
+  }
+
   auto attempt = [&](const std::string& name, Attempt* a, int which) {
     cctz::time_zone tz;
     heap_set_budget(static_cast<int64_t>(c.heap_budget_mib) << 20);
     set_phase("load");
+    if (RUNNING_ON_VALGRIND && declared_alloc > (static_cast<int64_t>(c.heap_budget_mib) << 20)) {
+      // memcheck replaces operator new itself, so the budget above is not enforced there; apply the memory proviso up front
+      a->skipped = true;
+      heap_set_budget(0);
+      ev("load#" + std::to_string(which) + " skipped: allocation above the heap budget (memory proviso, decided from the header under valgrind)");
+      return;
+    }
     try {
       LibraryScope ls;
       a->ok = cctz::load_time_zone(name, &tz);
